@@ -410,10 +410,13 @@ Section Exec.
                 match cur with
                 | VStr _ | VList _ =>
                     do '(sv, st1) <- eval f st e;
-                    do si <- int_of sv;
-                    match index_val cur si with
-                    | Some VNil | None => Ok (as_value VNil, st1)
-                    | Some v => match call with Some _ => xerr | None => walk f st1 v safe rest end
+                    match vv sv with
+                    | VInt si =>      (* only an integer is an index (fix D38) *)
+                        match index_val cur si with
+                        | Some VNil | None => Ok (as_value VNil, st1)
+                        | Some v => match call with Some _ => xerr | None => walk f st1 v safe rest end
+                        end
+                    | _ => Ok (as_value VNil, st1)
                     end
                 | VStruct m =>
                     do '(sv, st1) <- eval f st e;
